@@ -279,6 +279,8 @@ AddDecided(st, l) ==
     THEN {Fail(st, "NotUniqueError"), Fail(st, "Error")}
   ELSE IF l.rt = "O" /\ \E i \in DOMAIN st.lines : st.lines[i].rt = "U" /\ st.lines[i].name \in RefIds(l)
     THEN {[st |-> st, res |-> "unmodelled"]}   \* an ordered group cannot list a set: not specified
+  ELSE IF l.rt = "U" /\ l.name \in OItemIds(st)
+    THEN {[st |-> st, res |-> "unmodelled"]}   \* the same with the set arriving after the path that lists it
   ELSE IF IsLink(l) THEN
     LET clash == {i \in DOMAIN st.lines : LinkClash(st.lines[i], l)} IN
     IF \E i \in clash : IsComplement(l, st.lines[i]) /\ SameEnds(l, st.lines[i])
